@@ -389,7 +389,7 @@ def n_threads_from_array_length(arr_len: int):
     int
         Number of threads to use (at least 1, at most 2*cpu_count-2)
     """
-    return min(max(1, arr_len // int(2e6)), os.cpu_count() * 2 - 2)
+    return max(1, min(arr_len // int(2e6), os.cpu_count() * 2 - 2))
 
 
 def parallel_reduce(reducer, reduce_func_name: str, chunked_args):
